@@ -5,7 +5,7 @@ use linfa::dataset::{AsTargets, DatasetBase, Pr};
 use linfa::traits::{Predict, PredictInplace};
 use lvmc_core::enumerate as en;
 use lvmc_core::{guarded, json, Value, Violation};
-use ndarray::{Array1, Array2, ArrayView2, Axis, ShapeBuilder, Slice};
+use ndarray::{Array1, Array2, ArrayView1, ArrayView2, Axis, ShapeBuilder, Slice};
 use serde::{Deserialize, Serialize};
 use std::collections::BTreeMap;
 use std::marker::PhantomData;
@@ -190,6 +190,8 @@ pub struct Spec<'s> {
     pub margin: Option<Box<dyn Fn(&[f64]) -> (f64, f64) + 's>>,
     /// fragment of the documented panic message of `predict_inplace` with a wrong-length target
     pub wrong_len_msg: &'static str,
+    /// the model's single-observation calling form (1-D record), where the type has one
+    pub row_form: Option<Box<dyn Fn(ArrayView1<f64>) -> Cell + 's>>,
     pub only: Option<Only>,
 }
 
@@ -204,6 +206,7 @@ impl<'s> Spec<'s> {
             scale: Box::new(|_, _, o| o.abs()),
             margin: None,
             wrong_len_msg: "The number of data points must match the number of output targets.",
+            row_form: None,
             only: only.clone(),
         }
     }
@@ -474,6 +477,66 @@ pub fn sweep<'a, T, MO, MV>(
                 let cj = run.case_json(&[q], 0, "ref_array", json!("a prediction"), json!({"panic": msg}));
                 run.rep.push(Violation::new(format!("{}.predict.panic", kind), format!("{}: predicting pool row {} = {:?} alone panicked: {}", kind, q, row, msg), cj));
                 run.refs.push(None);
+            }
+        }
+    }
+
+    // ---- single-observation forms (1-D record) in three 1-D layouts ----
+    if let Some(rf) = &spec.row_form {
+        const ROW_LAYOUTS: [&str; 3] = ["row_contiguous", "row_every_second_element", "row_reversed"];
+        for (q, row) in spec.pool.iter().enumerate() {
+            let Some(want) = run.refs[q].clone() else { continue };
+            for (l, lname) in ROW_LAYOUTS.iter().enumerate() {
+                let backing: Array1<f64> = match l {
+                    0 => Array1::from(row.clone()),
+                    1 => Array1::from_shape_fn(2 * p, |i| if i % 2 == 0 { row[i / 2] } else { GARBAGE + i as f64 }),
+                    _ => Array1::from_shape_fn(p, |i| row[p - 1 - i]),
+                };
+                let view = match l {
+                    0 => backing.view(),
+                    1 => backing.slice(ndarray::s![..;2]),
+                    _ => backing.slice(ndarray::s![..;-1]),
+                };
+                assert!(view.iter().zip(row.iter()).all(|(a, b)| a.to_bits() == b.to_bits()) && view.len() == p);
+                run.rep.evals += 1;
+                run.rep.bump("calls_form_single_observation", 1);
+                let got = guarded(|| rf(view));
+                let at = json!({"sel": [q], "layout": lname, "form": "single_observation"});
+                let mk = |expected: Value, observed: Value| json!({"entry": kind, "instance": spec.instance, "max_len": spec.max_len, "only": at, "batch_rows": [row], "expected": expected, "observed": observed});
+                match got {
+                    Err(msg) => {
+                        let cj = mk(json!(want.iter().map(|c| c.json()).collect::<Vec<_>>()), json!({"panic": msg}));
+                        run.rep.push(Violation::new(format!("{}.single_observation.panic", kind), format!("{}: the 1-D form on pool row {} ({}) panicked: {}", kind, q, lname, msg), cj));
+                    }
+                    Ok(cell) => {
+                        let ok = match (&want[0], &cell) {
+                            (Cell::F(a), Cell::F(b)) => {
+                                a.to_bits() == b.to_bits() || (a.is_nan() && b.is_nan()) || {
+                                    let tol = spec.k() * spec.eps * (spec.scale)(row, 0, *a);
+                                    (a - b).abs() <= tol
+                                }
+                            }
+                            (w, g) => {
+                                w == g || spec.margin.as_ref().map_or(false, |m| {
+                                    let (gap, sc) = m(row);
+                                    let ind = gap.abs() <= spec.k() * f64::EPSILON * sc;
+                                    if ind {
+                                        run.rep.indeterminate += 1;
+                                    }
+                                    ind
+                                })
+                            }
+                        };
+                        if !ok {
+                            let cj = mk(want[0].json(), cell.json());
+                            run.rep.push(Violation::new(
+                                format!("{}.single_observation.differs_from_one_row_batch", kind),
+                                format!("{}: the 1-D form on pool row {} ({}) gives {:?}, the same row as a 1 x p batch gives {:?}", kind, q, lname, cell, want[0]),
+                                cj,
+                            ));
+                        }
+                    }
+                }
             }
         }
     }
